@@ -34,9 +34,11 @@ CHECKS["C04"] = dict(
          "(exact over Z_q: shares match the reported verification vector, redistribution keeps the key, signatures verify, session outputs agree) and every changed leaf that the "
          "binding table marks bound is rejected by an honest party (the addressee for a unicast). DeviationMC lets TLC prove the mathematical content of the table for verifiable "
          "dealing over Z_5 (all columns, coordinates, errors). The driver runs the complete (round, sender, recipient, CBOR leaf, operator) matrix - about 2500 runs per seed - on the real "
-         "session, HJKY, redistribute (with/without anchor), Gennaro, Canetti and Lindell22 participants plus cosigning aggregation, and TLC validates every run.",
+         "session, HJKY, redistribute (with/without anchor), Gennaro, Canetti and Lindell22 participants plus cosigning aggregation, and TLC validates every run. On BLS12-381 (family ProdProto) one deviating Boldyreva cosigner presents "
+         "every alteration of its partial signature (a component, two components by offsets cancelling in their sum, swapped components, components signed for another message, wrong length, proofs of possession, a peer's partial "
+         "signature; short / long keys x basic / aug / pop; threshold and replicated CNF / gate sharings) to an honest aggregator: ProdTrace.BlsDevOK requires rejection, blame of the deviator only, never a signature that fails verification.",
     note="Trusted: TLC, ProtoCore's binding table (validated against the code by the full matrix), the toy group. One deviating party and one altered leaf per run; strategies that alter several "
-         "leaves consistently are not explored. Curve-specific protocols (DKLs23, Lindell17, Boldyreva, CGGMP21) are not in the matrix.",
+         "leaves consistently are explored only as the listed re-dealing / claim strategies. DKLs23, Lindell17 and CGGMP21 are not in the matrix (Boldyreva is).",
     design_ref="DESIGN.md section 2, C04",
 )
 
@@ -46,19 +48,25 @@ CHECKS["C03"] = dict(
          "over threshold, unanimity, CNF and gate-tree structures with dense/sparse/large identifiers: TLC recomputes every dealing mod q (shares on the wire = dealer column applied to the "
          "recipient's rows, Pedersen vectors consistent under one second generator), checks that the span programme realises the policy (certificates verified by TLC), that all parties "
          "output the same key material = the sum of the dealings, that each private share matches its public share, that exactly the qualified sets reconstruct log(pk), and that stored and "
-         "reloaded shards are identical. KeyLifecycleMC explores the DKG action on the design over Z_5.",
-    note="Trusted: TLC, the spec, the toy group. The generic DKG code is what production groups run; curve arithmetic is not covered here. Fiat-Shamir compiler only (others: C08).",
+         "reloaded shards are identical. KeyLifecycleMC explores the DKG action on the design over Z_5. Family ProdProto repeats trusted dealing, Gennaro and Canetti (rounds and runners) on the seven production groups "
+         "(secp256k1, P-256, edwards25519 prime subgroup, Pallas, Vesta, BLS12-381 G1 and G2; Fiat-Shamir everywhere, Fischlin and randomised Fischlin on two groups): ProdTrace requires identical public material at all parties, "
+         "[share_i]G = the public share others hold, pk = [x]G for the x reconstructed by independent math/big linear algebra, reconstruction (scalar and in the exponent) exactly from the qualified subsets, distinct keys across runs, identical reload.",
+    note="Trusted: TLC, the specs, the toy group, the harness's math/big curve models and linear algebra (edwards25519: [k]G by the library). Production groups are judged through tokens and oracle booleans on sampled runs.",
     design_ref="DESIGN.md section 2, C03",
 )
 CHECKS["C01"] = dict(
-    technique="TLA+ KeyLifecycle signing algebra model-checked by TLC + TLC trace validation (the spec is the independent verifier) of real Lindell22 threshold-Schnorr runs on a toy group",
+    technique="TLA+ KeyLifecycle / SignAlgebra signing algebra (Lindell22, DKLs23, Lindell17, Boldyreva BLS with BIP-340 / Mina parity rules over threshold, CNF and gate-tree span programmes) model-checked by TLC + TLC trace validation of real threshold-signing runs: exact on a toy group (Lindell22), tokens and independent-oracle booleans on production curves (DKLs23 both multipliers, Lindell17, Lindell22 BIP-340 / Mina / Schnorr, Boldyreva BLS, CGGMP21)",
     text="For keys produced by trusted dealing, Gennaro and Canetti (rounds and runners) over threshold, unanimity, CNF and gate-tree structures (non-ideal span programmes included), real "
          "Lindell22 cosigners (generic Schnorr variant) sign with EVERY qualified quorum, minimal and non-minimal; unqualified quorums must be refused. TLC recomputes each additive key share, "
          "zero blinding, partial response and the aggregate mod q, requires all aggregators (plain and every cosigning one) to output that same signature, verifies it in the exponent "
          "(g^s = R pk^e) as an independent verifier, and requires the library verifier to agree and to reject the signature under another message exactly when the equation fails. "
-         "SignAlgebra is model-checked on the design over Z_5.",
-    note="PARTIAL w.r.t. the property's list of protocols: only Lindell22 with the configurable generic Schnorr variant is instantiable on the toy group. BIP-340/Mina variants, DKLs23 (both multipliers), "
-         "Lindell17, Boldyreva and CGGMP21 need production curves/pairings and are not decided by this check (DESIGN.md section 8). Trusted: TLC, the spec, the toy group.",
+         "SignAlgebra is model-checked on the design over Z_5 / Z_7 (ProdProto/SignAlgebraMC: DKLs23, Lindell17, BLS, Schnorr parity rules). "
+         "Family ProdProto runs the real production-curve protocols - DKLs23 with rvole/bbot and rvole/softspoken and Lindell17 on secp256k1 / P-256 (message hashes sha256, sha512, sha3-256, sha384), "
+         "CGGMP21 on secp256k1 (runner API, three-signer quorums included), Lindell22 with BIP-340, Mina and generic Schnorr variants, Boldyreva BLS short / long keys x basic / aug / pop - on keys from dealing, Gennaro and "
+         "Canetti over threshold, CNF and gate-tree structures; ProdTrace decides qualification from the logged policy and requires termination, one common output of every aggregator, acceptance by the library verifier "
+         "and by independent verifiers (math/big SEC 1 ECDSA + key recovery, crypto/ecdsa, BIP-340 over math/big, crypto/ed25519, sigma = [x]H(m) on math/big models of G1 / G2), rejection under another message, refusal of unqualified quorums.",
+    note="Toy group: exact (every scalar recomputed by TLC). Production curves: tokens and oracle booleans over the sampled (policy, quorum, key source, API, message) matrix of the seed; DKLs23 / Lindell17 / CGGMP21 cost seconds per run, so the "
+         "quick tier samples them (6 / 3 / 2 driver processes). Lindell17 runs with 1024-bit Paillier keys in a test-mode binary; CGGMP21 auxiliary material is a committed fixture in the quick tier. Trusted: TLC, the specs, the toy group, the harness's math/big models, Go's standard crypto.",
     design_ref="DESIGN.md section 2, C01",
 )
 
@@ -86,12 +94,13 @@ CHECKS["C07"] = dict(
 )
 
 CHECKS["C09"] = dict(
-    technique="TLA+ ProtoCore output-validity and binding predicates + TLC trace validation of real base-OT and random-VOLE runs (honest and single-leaf tampered) on a toy group",
+    technique="TLA+ ProtoCore output-validity and binding predicates (+ ProdTrace OtOK / VoleOK) + TLC trace validation of real base-OT, OT-extension and random-VOLE runs: exact on a toy group (ecbbot, rvole/bbot; honest and single-leaf tampered), tokens on secp256k1 / P-256 (VSOT, SoftSpoken, rvole/softspoken)",
     text="Real endemic base OT (ecbbot) batches and random-VOLE multiplications (rvole/bbot) between honest parties on the toy group are validated by TLC: for every instance and block the receiver's "
          "output equals the sender message selected by its choice bit, the two sender messages differ (61-bit field), c_k + d_k = a_k * b mod q exactly (q = 45971), and every honest run completes "
          "(61-bit field); batch sizes 8-256, block lengths 1-4, all-zero / all-one / alternating / random choices, inputs 0, 1, -1 and random. The single-leaf deviation matrix over both protocols' "
          "messages shows that altering the multiplier's check values (aTilde, eta, mu) makes Bob abort and that nothing crashes.",
-    note="PARTIAL: VSOT, the SoftSpoken OT extension and rvole/softspoken are curve-/binary-field-specific and not instantiable on the toy group; they are not decided by this check. Trusted: TLC, ProtoCore, the toy group.",
+    note="VSOT, the SoftSpoken extension (seeded by a real VSOT batch) and rvole/softspoken run on secp256k1 and P-256 with both parties honest (family ProdProto: receiver output = chosen sender message for every instance, the two messages differ, "
+         "c + d = a * b by math/big); their tamper matrix is not built (the abort clause is decided on ecbbot / rvole-bbot only). Trusted: TLC, ProtoCore / ProdTrace, the toy group.",
     design_ref="DESIGN.md section 2, C09",
 )
 
@@ -153,6 +162,7 @@ CHECKS["C12"] = dict(
 CHECKS["C14"] = dict(
     technique="TLA+ spec GroupProg (register programmes over an abstract cyclic group = integers) model-checked by TLC, every generated transition replayed on all curve types + TLC trace validation of the replayed registers",
     text="GroupProg explores register programmes (Add, Sub, Double, Neg, ScalarMul with 0 / 1 / order-1 / order / ..., ScalarBaseMul, MultiScalarMul of several lengths, Equal, IsOpIdentity) over discrete logarithms "
+         "(a third family: multi-scalar multiplications of 2^k-1, 2^k, 2^k+1 terms for k = 4..12, one per window width of the bucket method, with full-width scalars and registers summing to zero) "
          "as unreduced integers, checks the algebraic laws on every reachable register file and prints every transition with its predicted result; a second family generates pairing programmes e([a]G1,[b]G2) = "
          "e(G1,G2)^(ab). The driver replays every step on k256, P-256, edwards25519 (+ prime subgroup), curve25519 (+ prime subgroup), Pallas, Vesta, BLS12-381 G1 / G2 / GT, projecting each real register to its integer "
          "through a reference table [k]G cross-checked against independent math/big models, and runs small-window scalar / base field operations; GroupProgTrace demands exact equality of every register after every step.",
@@ -166,7 +176,8 @@ CHECKS["C15"] = dict(
     text="TLC explores generic Schnorr exactly over Z_q for all keys, nonces, oracle values and single-component alterations, and cross-checks every row of the accept/reject tables of ECDSA (incl. the n-s / recovery-bit "
          "equivalence, strict low-S), BIP-340, Mina, plain Schnorr and BLS (aggregate, batch, PoP with missing / foreign / identity / out-of-subgroup contributors) against an exact small model of each verification "
          "equation. The driver runs the real code: generic Schnorr on the toy group for all keys x nonces x alterations through a scripted reader, and the production schemes over the full alteration product with "
-         "independent oracles evaluated into booleans (math/big ECDSA and BIP-340, crypto/ecdsa, crypto/ed25519, known-secret BLS identity, published vectors), recovery and normalisation. SigVerifyTrace re-decides every call.",
+         "independent oracles evaluated into booleans (math/big ECDSA and BIP-340, crypto/ecdsa, crypto/ed25519, known-secret BLS identity under the published ciphersuite tags, published vectors), recovery and normalisation, "
+         "and ECDSA signatures constructed with s in a window around the middle of the scalar range (s = (n-1)/2 + off; the spec's LowAt / NegAt, tied to LowS / Neg of the model by an ASSUME). SigVerifyTrace re-decides every call.",
     note="Trusted: TLC, the SigVerify tables, the harness's math/big reference code, Go's standard crypto. Production curves are judged by alteration class over sampled keys / messages; BLS has no second pairing implementation in the sandbox.",
     design_ref="DESIGN.md section 2, C15",
 )
